@@ -90,7 +90,7 @@ def tokenize(
             #     token = Token(source=formula)
             continue
         if quote_context and quote_context[-1] in ('"', "'", "`", ")", "]", "}", "%"):
-            if char in "`([" and quote_context[-1] in "})]":
+            if char in "`([\"'" and quote_context[-1] in "})]":
                 quote_context.append(char.replace("(", ")").replace("[", "]"))
             token.update(char, i)
             continue
